@@ -8,6 +8,10 @@ from checks import _simutil as U
 from checks import _simctl as S
 from vlib.harness import hyp_part, EnumPart
 
+import os
+
+# the quick tier runs in one process unless VERIF_JOBS asks for more (the box is shared)
+SERIAL = os.environ.get("VERIF_TIER") == "quick" and not os.environ.get("VERIF_JOBS")
 PID = "C32"
 TITLE = "Concurrent execution returns one ordered result per statement"
 LEVEL = "exploration"
@@ -202,6 +206,19 @@ def judge(case, ctx, kinds, entry, conc, out, finished, calls, completed, peak, 
     ff = entry.endswith("-ff")
     fails = [i for i, k in enumerate(kinds) if not k.endswith("ok")]
     feat = [entry]
+    run = best = 0
+    for k in kinds:
+        run = run + 1 if (k.startswith("sync") or k in ("raise", "x-err")) else 0
+        best = max(best, run)
+    deep = best >= 150 and any(k.startswith("sync") for k in kinds)
+    real_ctx = ctx
+    if deep:
+        # executions that are already complete when callbacks are attached, >= 150 in a row: one mechanism (unbounded
+        # recursion through add_callbacks) with many symptoms -- one key
+        class _Deep(object):
+            def fail(self, key, msg):
+                real_ctx.fail(["C32.sync-chain>=150", "recursion"], "%s: %s" % ("/".join(map(str, key)), msg))
+        ctx = _Deep()
     if not finished:
         ctx.fail(["C32.terminates", "hang"] + feat + (["empty"] if n == 0 else []),
                  "every execution completed but the call did not return (outstanding: none)")
@@ -343,12 +360,22 @@ def _run_real(case, ctx, sim, CC):
         state["peak"] = max(state["peak"], state["held"] + 1)
         k = kinds[i]
         if k.startswith("sync"):
+            # (sync-err never gets here: its query plan is empty and the future fails inside execute_async;
+            # sync-ok is answered at once, the response reaches the client when the event loop runs)
             answer(conn, req, k.endswith("ok"))
             return ("drop",)
         state["held"] += 1
         return ("hold",)
     node.on_request = on_request
-    prof = ExecutionProfile(load_balancing_policy=U.fixed_plan_policy(), request_timeout=None, row_factory=tuple_factory)
+    lbp = U.fixed_plan_policy()
+    plain_plan = lbp.make_query_plan
+
+    def make_query_plan(working_keyspace=None, query=None):
+        if query is not None and "NOHOST" in getattr(query, "query_string", ""):
+            return []               # no host for this statement: the future fails with NoHostAvailable at once
+        return plain_plan(working_keyspace, query)
+    lbp.make_query_plan = make_query_plan
+    prof = ExecutionProfile(load_balancing_policy=lbp, request_timeout=None, row_factory=tuple_factory)
     cluster = sim.make_cluster(["10.0.0.1"], execution_profiles={EXEC_PROFILE_DEFAULT: prof})
     session = sim.call(cluster.connect, wait_for_all_pools=True)
     sim.settle()
@@ -363,6 +390,8 @@ def _run_real(case, ctx, sim, CC):
     for i, k in enumerate(kinds):
         if k == "raise":
             stmts.append((prepared, (i, 2, 3)))        # too many values: bind() raises inside execute_async
+        elif k == "sync-err":
+            stmts.append((SimpleStatement("SELECT x FROM t WHERE NOHOST AND i=%d" % i), None))
         else:
             stmts.append((SimpleStatement("SELECT x FROM t WHERE i=%d" % i), None))
     out = {}
@@ -393,7 +422,13 @@ def _run_real(case, ctx, sim, CC):
             state["completed"].append(i)
             raise
         # client-side completion order (registered before cassandra.concurrent attaches its own callbacks)
-        fut.add_callbacks(lambda r: state["completed"].append(i), lambda e: state["completed"].append(i))
+        def failed(e):
+            try:
+                e._stmt = i
+            except Exception:  # noqa
+                pass
+            state["completed"].append(i)
+        fut.add_callbacks(lambda r: state["completed"].append(i), failed)
         return fut
     session.execute_async = recording_execute_async
     actor = sim.world.spawn(caller, "caller")
@@ -441,6 +476,16 @@ def deep_cases(chunk):
                 kinds = ["raise"] * n + [tail]
                 yield {"kinds": kinds, "entry": chunk["entry"], "concurrency": conc,
                        "priority": [n] if tail.startswith("async") else []}
+    # futures that are already complete when callbacks are attached, many in a row (e.g. no host available)
+    for n in (120, 260):
+        for kind in ("sync-ok", "sync-err"):
+            yield {"kinds": [kind] * n + ["async-ok"], "entry": chunk["entry"], "concurrency": 2, "priority": [n]}
+
+
+def real_deep_cases(chunk):
+    for n in (120, 260):
+        yield {"kinds": ["sync-err"] * n + ["async-ok"], "entry": chunk["entry"], "concurrency": 2, "priority": [n],
+               "gran": "blocking", "tape": []}
 
 
 @st.composite
@@ -469,6 +514,7 @@ def parts(tier):
         EnumPart("fake-deep", [{"entry": e} for e in ENTRIES], deep_cases, interpret_fake),
         hyp_part("fake-large", lambda: s_fake("blocking"), interpret_fake, tier, quick=150, thorough=3000, quick_shards=2, thorough_shards=6),
         hyp_part("fake-locks", lambda: s_fake("locks"), interpret_fake, tier, quick=150, thorough=3000, quick_shards=2, thorough_shards=6),
+        EnumPart("real-deep", [{"entry": e} for e in ("list", "gen", "async")], real_deep_cases, interpret_real),
         hyp_part("real-session", lambda: s_real("blocking"), interpret_real, tier, quick=80, thorough=1500, quick_shards=2, thorough_shards=4),
         hyp_part("real-locks", lambda: s_real("locks"), interpret_real, tier, quick=60, thorough=1000, quick_shards=2, thorough_shards=4),
     ]
